@@ -167,7 +167,7 @@ func (c *TLSServerConfig) loadCertificate(tlsCfg *tls.Config) error {
 
 // redactDataURI hides the payload of an inline "data:" value (key material) in diagnostics.
 func redactDataURI(s string) string {
-	if strings.HasPrefix(s, "data:") {
+	if IsDataURI(s) {
 		return "data:xxxxx"
 	}
 	return s
